@@ -380,6 +380,15 @@ def build_edited(ch, rnd, coder=None):
             if not cands:
                 continue
             t = rnd.choice(cands)
+            if rnd.random() < 0.5:
+                # a detour to a very different depth: whatever is remembered about depths there is most wrong back home
+                def _depth(n):
+                    d = 0
+                    while n is not None:
+                        n, d = st[n]['parent'], d + 1
+                    return d
+                far = max(abs(_depth(c) - _depth(p)) for c in cands)
+                t = rnd.choice([c for c in cands if abs(_depth(c) - _depth(p)) == far])
             if rnd.random() < 0.4:
                 warm()      # (a warm cache *before* the detour would hold the finally correct answers)
             sc.move_state(m, t)
